@@ -29,9 +29,14 @@ def gen(rng, tier):
                 threads[th].append({"op": "cancel", "f": rng.randrange(fid)})
         if th > 0:
             threads[th].append({"op": "wait_all"})
-    if nthreads > 1:
+    race = nthreads > 1 and rng.random() < 0.4
+    if race:
+        # the shutdown races with the other thread's submits (possibly its first one, which starts the manager)
+        if rng.random() < 0.5:
+            del main[2:]
+    elif nthreads > 1:
         main.append({"op": "join_users"})
-    if rng.random() < 0.3:
+    if rng.random() < 0.3 and not race:
         # a late pickling error: the feeder's error path runs while the shutdown is in progress
         ts, args = gen_task(rng, fid, ["bad_arg"], durs=(0,))
         main.append(submit_op("A", fid, ts, args))
@@ -40,6 +45,8 @@ def gen(rng, tier):
     else:
         late = False
     end = rng.choice(["wait", "wait", "nowait", "nowait", "with", "del", "del", "none", "nowait+wait"])
+    if race:
+        end = rng.choice(["wait", "wait", "with", "nowait+wait"])
     if not late and rng.random() < (0.7 if end == "del" else 0.3):
         main.append({"op": "wait_all"})
     if rng.random() < 0.3:
@@ -59,6 +66,8 @@ def gen(rng, tier):
             main.append({"op": "wait_all", "which": "all"})
             main.append({"op": "sleep", "d": 200.0})
             main.append({"op": "probe_gc_shutdown", "n": 0})
+    if race:
+        main.append({"op": "join_users"})
     if end not in ("del", "none"):
         main.append({"op": "submit_expect_error", "ex": "A", "id": 9000})
     if rng.random() < 0.5:
@@ -99,6 +108,13 @@ class C05(Prop):
                     out.append(V(self.id, "C05/manager-alive-after-waited-shutdown", "shutdown(wait=True) returned with the manager thread alive"))
                 if r.get("workers_alive"):
                     out.append(V(self.id, "C05/workers-alive-after-waited-shutdown", "workers %r alive when shutdown(wait=True) returned" % (r["workers_alive"],)))
+                if len(res.obs.executors) == 1:
+                    if r.get("any_mgr_alive") and not r.get("mgr_alive"):
+                        out.append(V(self.id, "C05/manager-alive-after-waited-shutdown/started-during-the-call",
+                                     "shutdown(wait=True) returned while a manager thread of the process is running"))
+                    if r.get("any_workers_alive") and not r.get("workers_alive") and len(res.obs.executors) == 1:
+                        out.append(V(self.id, "C05/workers-alive-after-waited-shutdown/spawned-during-the-call",
+                                     "workers %r alive when shutdown(wait=True) returned" % (r["any_workers_alive"],)))
                 if r.get("zombies"):
                     out.append(V(self.id, "C05/zombie-after-waited-shutdown", "workers %r not reaped" % (r["zombies"],)))
             if e["op"] == "probe_gc_shutdown" and r.get("collected") and res.sched.knobs["J"] <= 1.0:
